@@ -1,7 +1,7 @@
 (** * C15 — Shrink is invisible and convergent.
 
     Proved here (relation-free tier; every state satisfying the storage invariant):
-    - on a locked world (open query, running callback) Shrink is rejected without any effect;
+    - on a locked world (open query, running callback) Shrink is rejected without any effect, whatever its budget;
     - on an unlocked world Shrink (unbounded or zero budget) never fails, keeps the invariant, and changes no entity,
       component or value ([content_same]), nor the pool, the entity index, the lock, observers,
       filters, queries, archetypes or the number of tables: so by the storage theorems every later
@@ -11,6 +11,20 @@
     - the result is exact: it is [true] iff some table can still shrink afterwards; every
       zero-budget call that finds work strictly decreases the number of shrinkable tables, so
       repeated bounded calls converge;
+    - EVERY TIME BUDGET, EVERY CLOCK ([..._any_budget]). The model's loop is [w_shrink_clock clock], where
+      [clock idx] answers "has the budget expired when table idx has just been processed" (Go:
+      [stopAfter == 0 || time.Since(start) >= stopAfter], tested after each table once a table had work);
+      [w_shrink_timed clock] = lock check + that loop, and the two budgets above are the constant clocks
+      ([C15_extreme_budgets_are_clocks]). For EVERY function [clock : nat -> bool] (no monotonicity assumed):
+      Shrink never fails, is invisible in the sense above ([C15_shrink_invisible_any_budget]), its result is
+      exact ([C15_result_exact_any_budget]), every table the walk has processed - and every table at all
+      whenever it reports no remaining work - has len <= cap <= max(initial capacity, next power of two of
+      len) ([C15_capacity_bounds_any_budget]); a call never makes a table shrinkable, and if anything is
+      shrinkable it does the work of at least one table, because the stop test is only made after a table had
+      work ([C15_progress_any_budget]); hence every sequence of time-boxed calls, one arbitrary clock per call,
+      never fails, is invisible as a whole and reaches "nothing left to shrink" after at most
+      [shrinkable s] calls that report remaining work ([C15_converges_any_budgets],
+      [C15_converges_any_budgets_done]; by induction over the LIST of clocks);
     - capacity arithmetic: capPow2 on uint32 (bit twiddling, mod 2^32 explicit) is the least power
       of two >= n for all n <= 2^31, < 2n; beyond 2^31 it wraps to 0 (tables never get there:
       fewer than 2^31 entities).
@@ -18,12 +32,24 @@
       St2, changes no entity's components, values or relation targets, nor pool, index, flags,
       observers, filters; the only tables whose status changes are EMPTY relation tables, which
       become free and disappear from every lookup and from the filter cache (the repaired code
-      path); after an unbounded Shrink every empty relation table is free ([C15_shrink_relation_worlds]).
+      path); after an unbounded Shrink every empty relation table is free ([C15_shrink_relation_worlds]);
+      under EVERY clock the same holds, with "every empty relation table among the tables the walk has processed
+      (0..last, last = the final table or one after which the clock had expired) is free"
+      ([C15_shrink_relation_worlds_any_budget]); and (ShrinkClockRel.v) under EVERY clock the result is exact and
+      the calls converge in relation worlds too, for the measure [workable] = the number of tables that can
+      shrink or are empty, not yet free relation tables (exactly the test of the code's final scan; it is
+      [shrinkable] in relation-free worlds): [b = true <-> 0 < workable s'], never more work than before,
+      strictly less if there was any ([C15_relation_worlds_exact_progress_any_budget]); every sequence of
+      time-boxed calls, one arbitrary clock per call, reaches [workable = 0] - no table can shrink, every empty
+      relation table is free - after at most [workable s] calls that report remaining work
+      ([C15_relation_worlds_converge_any_budgets], [..._done]).
     Not covered by theorems: (relation-free statement only:) freeing of empty relation tables by Shrink (the repaired code path:
     witness TestWitness_C15_ShrinkFreesRelationTable and the `shrink` correspondence stream with
-    the relation-lookup dump), time-limited budgets other than zero (clock dependent). *)
+    the relation-lookup dump). Time budgets other than zero are now covered: what remains unmodelled is only
+    the clock itself, which the theorems quantify over (the operation language of Model/Run.v still offers the
+    two constant clocks only, so the correspondence streams exercise those two). *)
 From Ark Require Import Model.Base Model.Mask Model.Pool Model.Util Model.World Model.Run.
-From Ark Require Import Proofs.UtilProofs Proofs.WF Proofs.StorageA Proofs.ResetShrinkProofs Proofs.Rel2Defs Proofs.Rel2Maint Properties.Common.
+From Ark Require Import Proofs.UtilProofs Proofs.WF Proofs.StorageA Proofs.ResetShrinkProofs Proofs.Rel2Defs Proofs.Rel2Maint Proofs.ShrinkClockRel Properties.Common.
 
 (** On a locked world - between the creation of a query and its end, inside removal and batch
     callbacks - Shrink is rejected and the state is exactly as before: an open query, a cached filter
@@ -92,6 +118,120 @@ Theorem C15_shrink_relation_worlds : forall s stop0, St2 s -> is_locked s = fals
 Proof. exact D_shrink_spec_w. Qed.
 Definition C15_relation_example := r2d_ex_shrink_by_theorem.
 
+(** ** Every time budget and every clock
+
+    [w_shrink_timed clock] is World.Shrink whose budget test after table [idx] is answered by [clock idx];
+    nothing is assumed about [clock]. The two budgets of the statements above are the constant clocks. *)
+Theorem C15_extreme_budgets_are_clocks : forall stop0, w_shrink stop0 = w_shrink_timed (fun _ => stop0).
+Proof. exact shrink_timed_const. Qed.
+
+Theorem C15_locked_rejected_any_budget : forall s clock, is_locked s = true -> w_shrink_timed clock s = Err ELocked s.
+Proof. exact shrink_locked_rejected_clock. Qed.
+
+Theorem C15_shrink_invisible_any_budget : forall s clock, St s -> is_locked s = false ->
+  exists b s', w_shrink_timed clock s = Ok b s' /\ St s' /\ content_same s s' /\ w_pool s' = w_pool s /\
+               w_index s' = w_index s /\ side_same s s' /\ frame_user s s' /\ w_archs s' = w_archs s /\
+               length (w_tables s') = length (w_tables s).
+Proof. exact shrink_invisible_clock_w. Qed.
+
+Theorem C15_keeps_unlocked_any_budget : forall s clock b s', St s -> is_locked s = false ->
+  w_shrink_timed clock s = Ok b s' -> is_locked s' = false.
+Proof. exact shrink_keeps_unlocked_clock. Qed.
+
+Theorem C15_result_exact_any_budget : forall s clock, St s -> is_locked s = false ->
+  exists b s', w_shrink_timed clock s = Ok b s' /\ (b = true <-> 0 < shrinkable s').
+Proof. exact shrink_result_exact_clock_w. Qed.
+
+(** The walk processes the tables [0..last]; [last] is the final table or one after which the clock had expired;
+    the processed tables are within the bounds; a walk that reached the final table reports no remaining work;
+    and whenever no remaining work is reported, every table is within the bounds. *)
+Theorem C15_capacity_bounds_any_budget : forall s clock, St s -> is_locked s = false ->
+  exists last b s', w_shrink_timed clock s = Ok b s' /\ last < length (w_tables s) /\
+    (S last = length (w_tables s) \/ clock last = true) /\
+    (S last = length (w_tables s) -> b = false) /\
+    (forall tid t, tid <= last -> nth_error (w_tables s') tid = Some t ->
+       t_len t <= t_cap t /\ t_cap t <= Nat.max (cf_cap (w_cfg s)) (cap_pow2 (t_len t))) /\
+    (b = false -> forall tid t, nth_error (w_tables s') tid = Some t ->
+       t_len t <= t_cap t /\ t_cap t <= Nat.max (cf_cap (w_cfg s)) (cap_pow2 (t_len t))).
+Proof. exact shrink_capacity_bounds_clock_w. Qed.
+
+(** Progress: whatever the clock, a call does the work of at least one table if there is any. *)
+Theorem C15_progress_any_budget : forall s clock, St s -> is_locked s = false ->
+  exists b s', w_shrink_timed clock s = Ok b s' /\ shrinkable s' <= shrinkable s /\
+               (0 < shrinkable s -> shrinkable s' < shrinkable s).
+Proof. exact shrink_progress_clock_w. Qed.
+
+(** [shrink_calls clocks]: call Shrink while it reports remaining work, the i-th call under the i-th clock, at
+    most [length clocks] times; the result [n] is the number of calls that reported remaining work. Each of
+    them made at least one more table unshrinkable, so [n <= shrinkable s]; if the loop ended before the
+    clocks ran out, nothing is left to shrink; the whole loop is invisible. *)
+Theorem C15_converges_any_budgets : forall clocks s, St s -> is_locked s = false ->
+  exists n s', shrink_calls clocks s = Ok n s' /\ n <= length clocks /\ n + shrinkable s' <= shrinkable s /\
+    (n < length clocks -> shrinkable s' = 0) /\
+    St s' /\ is_locked s' = false /\ content_same s s' /\ w_pool s' = w_pool s /\ w_index s' = w_index s /\
+    side_same s s' /\ frame_user s s' /\ w_archs s' = w_archs s /\ length (w_tables s') = length (w_tables s).
+Proof. exact shrink_converges_clocks. Qed.
+
+Theorem C15_converges_any_budgets_done : forall clocks s, St s -> is_locked s = false ->
+  shrinkable s <= length clocks ->
+  exists n s', shrink_calls clocks s = Ok n s' /\ n <= shrinkable s /\ shrinkable s' = 0 /\ St s' /\
+               is_locked s' = false /\ content_same s s'.
+Proof. exact shrink_converges_clocks_done. Qed.
+
+(** Non-vacuity: a reachable world with four tables, three of them shrinkable; one call under a clock that
+    expires after table 1 (an intermediate budget), under a non-monotone clock, and a loop of four calls with
+    four different clocks, computed; and the loop by the theorem, for three arbitrary clocks. *)
+Definition C15_any_budget_example := (r_ex_world_ok, r_ex_one_call, r_ex_calls, r_ex_calls_by_theorem).
+
+Theorem C15_shrink_relation_worlds_any_budget : forall s clock, St2 s -> is_locked s = false ->
+  exists b s' last, w_shrink_timed clock s = Ok b s' /\ St2 s' /\ content_same s s' /\ r2d_tgt_same s s' /\
+    w_pool s' = w_pool s /\ w_index s' = w_index s /\ w_istarget s' = w_istarget s /\ side_same s s' /\ frame_user s s' /\
+    length (w_tables s') = length (w_tables s) /\
+    (forall j t, nth_error (w_tables s) j = Some t -> exists t', nth_error (w_tables s') j = Some t' /\ r2d_tfree t t') /\
+    last < length (w_tables s) /\ (S last = length (w_tables s) \/ clock last = true) /\
+    (forall j t', j <= last -> nth_error (w_tables s') j = Some t' -> t_rels t' <> [] -> t_len t' = 0 -> t_free t' = true) /\
+    (r2d_KeysLive s -> r2d_KeysLive s').
+Proof. exact D_shrink_spec_clock_w. Qed.
+Definition C15_relation_any_budget_example := r2d_ex_shrink_clock_by_theorem.
+
+(** Relation worlds, every clock: the result is exact and every call makes progress, for the measure
+    [workable s] = number of tables with [r_work s t] (can shrink, or empty and not yet free relation table). *)
+Theorem C15_relation_worlds_exact_progress_any_budget : forall s clock, St2 s -> is_locked s = false ->
+  exists b s', w_shrink_timed clock s = Ok b s' /\ St2 s' /\ (b = true <-> 0 < workable s') /\
+    workable s' <= workable s /\ (0 < workable s -> workable s' < workable s).
+Proof.
+  intros s clock HS Hl. destruct (D_shrink_run_clock_w s clock HS Hl) as (b & s' & last & E & S2 & _ & _ & _ & _ & _ & _ & X & P).
+  exists b, s'. split; [exact E|]. split; [exact S2|]. split; [exact X|exact P].
+Qed.
+
+Theorem C15_workable_is_shrinkable_without_relations : forall s, St s -> workable s = shrinkable s.
+Proof. exact r2t_workable_norel. Qed.
+
+Theorem C15_relation_worlds_converge_any_budgets : forall clocks s, St2 s -> is_locked s = false ->
+  exists n s', shrink_calls clocks s = Ok n s' /\ n <= length clocks /\ n + workable s' <= workable s /\
+    (n < length clocks -> workable s' = 0) /\
+    St2 s' /\ is_locked s' = false /\ r2d_shr s s' /\ (r2d_KeysLive s -> r2d_KeysLive s').
+Proof. exact D_shrink_converges_clocks. Qed.
+
+Theorem C15_relation_worlds_converge_any_budgets_done : forall clocks s, St2 s -> is_locked s = false ->
+  workable s <= length clocks ->
+  exists n s', shrink_calls clocks s = Ok n s' /\ n <= workable s /\ St2 s' /\ is_locked s' = false /\ r2d_shr s s' /\
+    (forall j t, nth_error (w_tables s') j = Some t ->
+       (t_rels t = [] -> tbl_can_shrink t (cf_cap (w_cfg s')) = false) /\
+       (t_rels t <> [] -> tbl_can_shrink t (cf_caprel (w_cfg s')) = false /\ (t_len t = 0 -> t_free t = true))).
+Proof.
+  intros clocks s HS Hl Hlen.
+  destruct (D_shrink_converges_clocks_done clocks s HS Hl Hlen) as (n & s' & E & N & J1 & J2 & J3 & Hall).
+  exists n, s'. split; [exact E|]. split; [exact N|]. split; [exact J1|]. split; [exact J2|]. split; [exact J3|].
+  intros j t Ej. apply r2t_work_false. exact (Hall j t Ej).
+Qed.
+Definition C15_relation_converge_example := (r2t_ex_hyps, r2t_ex_calls_computed, r2t_ex_calls_by_theorem).
+
 Definition C15_all := (C15_locked_rejected, C15_keeps_unlocked, C15_shrink_relation_worlds, C15_relation_example, C15_shrink_invisible, C15_capacity_bounds, C15_result_exact, C15_converges, C15_cap_pow2,
-  C15_cap_pow2_wraps_beyond_2_31).
+  C15_cap_pow2_wraps_beyond_2_31,
+  C15_extreme_budgets_are_clocks, C15_locked_rejected_any_budget, C15_shrink_invisible_any_budget, C15_keeps_unlocked_any_budget,
+  C15_result_exact_any_budget, C15_capacity_bounds_any_budget, C15_progress_any_budget, C15_converges_any_budgets,
+  C15_converges_any_budgets_done, C15_any_budget_example, C15_shrink_relation_worlds_any_budget, C15_relation_any_budget_example,
+  C15_relation_worlds_exact_progress_any_budget, C15_workable_is_shrinkable_without_relations,
+  C15_relation_worlds_converge_any_budgets, C15_relation_worlds_converge_any_budgets_done, C15_relation_converge_example).
 Print Assumptions C15_all.
